@@ -86,7 +86,9 @@ func jobC08g(c *rt.Ctx) {
 		ScalarmultBaseNiels(&r, &NielsBaseMultiples, &sc)
 		Pack(o2[:], &r)
 		ss := s
-		emit("fixed", func() map[string]interface{} { return map[string]interface{}{"scalar": ref.Hex(ss), "sB": ref.Hex(o1[:])} }, o1[:], o2[:])
+		emit("fixed", func() map[string]interface{} {
+			return map[string]interface{}{"scalar": ref.Hex(ss), "sB": ref.Hex(o1[:])}
+		}, o1[:], o2[:])
 	}
 	pts := [][]byte{ref.Base().Encode(), ref.Public(make([]byte, 32)), ref.Torsion(1).Encode(), ref.Torsion(4).Encode(), ref.BaseMul(a0).Add(ref.Torsion(7)).Encode()}
 	var scal []*big.Int
